@@ -8,6 +8,7 @@ mod eng_fringe;
 mod fam;
 mod eng_mdd;
 mod eng_seq;
+mod eng_par;
 
 pub struct Args {
     pub engine: String,
@@ -44,6 +45,7 @@ fn main() {
         "mdd" => eng_mdd::run_mdd(&a),
         "seq" => eng_seq::run_seq(&a),
         "seqcut" => eng_seq::run_seqcut(&a),
+        "par" => eng_par::run_par(&a),
         e => { eprintln!("unknown engine {}", e); std::process::exit(2); }
     }
 }
